@@ -1,4 +1,4 @@
-import SaphyrModel.Sc.Frames2
+import SaphyrModel.Sc.FramesBody
 /-! Assembling invariant preservation (`PresS`) over the `fetch_*` functions of the scanner. -/
 namespace SaphyrModel.Sc
 open SaphyrModel
@@ -43,16 +43,6 @@ theorem fetchFlowEntry_pres : PresS fetchFlowEntry := by unfold fetchFlowEntry; 
 theorem fetchDocumentIndicator_pres (t : TokenType) : PresS (fetchDocumentIndicator t) := by
   unfold fetchDocumentIndicator; pres2
 
-set_option maxHeartbeats 4000000 in
-theorem scanBlockScalarBody_frames (lit : Bool) (m : Marker) : Frames (scanBlockScalarBody lit m) := by
-  unfold scanBlockScalarBody; frames2
-macro_rules | `(tactic| frames_close) => `(tactic| exact scanBlockScalarBody_frames _ _)
-
-set_option maxHeartbeats 4000000 in
-theorem scanPlainScalarBody_frames : Frames scanPlainScalarBody := by
-  unfold scanPlainScalarBody; frames2
-macro_rules | `(tactic| frames_close) => `(tactic| exact scanPlainScalarBody_frames)
-
 theorem scanBlockScalar_pres (lit : Bool) : PresS (scanBlockScalar lit) := by
   unfold scanBlockScalar; pres2
 theorem scanPlainScalar_pres : PresS scanPlainScalar := by
@@ -62,5 +52,470 @@ macro_rules | `(tactic| pres_close) => `(tactic| first | exact scanBlockScalar_p
 theorem fetchBlockScalar_pres (l : Bool) : PresS (fetchBlockScalar l) := by unfold fetchBlockScalar; pres2
 theorem fetchPlainScalar_pres : PresS fetchPlainScalar := by unfold fetchPlainScalar; pres2
 theorem fetchFlowScalar_pres (single : Bool) : PresS (fetchFlowScalar single) := by unfold fetchFlowScalar; pres2
+
+theorem popExplicitMapping_frames : Frames (modS popExplicitMapping) := by
+  apply Frames.modS; intro s
+  unfold popExplicitMapping
+  split <;> exact ⟨rfl, rfl, rfl, rfl, rfl, rfl, ⟨[], (List.append_nil _).symm⟩⟩
+macro_rules | `(tactic| frames_close) => `(tactic| exact popExplicitMapping_frames)
+
+/-- `m >>= f` preserves the invariant when `m` does and `f` does for every result -/
+macro "pb " h:term : tactic => `(tactic| (apply PresS.bind $h; intro _))
+/-- the same for a step that only frames the state -/
+macro "fb " h:term : tactic => `(tactic| (apply PresS.bind (Frames.presS $h); intro _))
+
+theorem pushImplState_frames (st : ImplState) : Frames (modS (pushImplState st)) :=
+  Frames.modS _ fun _ => ⟨rfl, rfl, rfl, rfl, rfl, rfl, ⟨[], (List.append_nil _).symm⟩⟩
+
+theorem fetchFlowCollectionStart_pres (t : TokenType) : PresS (fetchFlowCollectionStart t) := by
+  unfold fetchFlowCollectionStart
+  pb saveSimpleKey_pres
+  pb rollOneColIndent_pres
+  pb increaseFlowLevel_pres
+  fb allowSimpleKey_frames
+  apply PresS.bind (Frames.presS Frames.getMark); intro startMark
+  fb Frames.skipNonBlank
+  fb (pushImplState_frames _)
+  fb (Frames.skipWsToEol _)
+  apply PresS.bind (Frames.presS Frames.getMark); intro m
+  exact pushTok_pres _ _
+
+theorem tailImplStates_frames : Frames (modS fun s => { s with implStates := s.implStates.tail }) :=
+  Frames.modS _ fun _ => ⟨rfl, rfl, rfl, rfl, rfl, rfl, ⟨[], (List.append_nil _).symm⟩⟩
+
+theorem adjacentAt_frames :
+    Frames (modS fun s => if s.flowLevel > 0 then { s with adjacentValueAllowedAt := s.mark.index } else s) := by
+  apply Frames.modS; intro s
+  split <;> exact ⟨rfl, rfl, rfl, rfl, rfl, rfl, ⟨[], (List.append_nil _).symm⟩⟩
+
+theorem closeFlowState_frames (t : TokenType) : Frames (closeFlowState t) := by
+  unfold closeFlowState
+  split
+  · apply Frames.bind Frames.getMark; intro m
+    apply Frames.bind (endImplicitMapping_frames m); intro _
+    exact tailImplStates_frames
+  · exact popExplicitMapping_frames
+
+theorem fetchFlowCollectionEnd_pres (t : TokenType) : PresS (fetchFlowCollectionEnd t) := by
+  unfold fetchFlowCollectionEnd
+  pb removeSimpleKey_pres
+  pb decreaseFlowLevel_pres
+  fb disallowSimpleKey_frames
+  fb (closeFlowState_frames t)
+  apply PresS.bind (Frames.presS Frames.getMark); intro startMark
+  fb Frames.skipNonBlank
+  fb (Frames.skipWsToEol _)
+  fb adjacentAt_frames
+  apply PresS.bind (Frames.presS Frames.getMark); intro m
+  exact pushTok_pres _ _
+
+-- block entry -------------------------------------------------------------------------------------
+
+theorem anchorIndentCheck_frames (s : Sc) : Frames (anchorIndentCheck s) := by
+  unfold anchorIndentCheck
+  repeat' (first | exact Frames.pure _ | exact Frames.err _ _ | split)
+
+theorem blockEntryTabCheck_frames (r : SkipTabs) : Frames (blockEntryTabCheck r) := by
+  unfold blockEntryTabCheck; frames2
+
+theorem rollIfBreakOrFlow_pres : PresS rollIfBreakOrFlow := by
+  unfold rollIfBreakOrFlow
+  apply PresS.bind (Frames.presS (Frames.liftI _ (NoStruct.nextIs _ _))); intro b
+  apply PresS.ite rollOneColIndent_pres
+  apply PresS.bind (Frames.presS (Frames.liftI _ (NoStruct.nextIs _ _))); intro b2
+  exact PresS.ite rollOneColIndent_pres (PresS.pure _)
+
+theorem fetchBlockEntryTail_pres : PresS fetchBlockEntryTail := by
+  unfold fetchBlockEntryTail
+  fb (Frames.skipWsToEol _)
+  fb (Frames.lookahead _)
+  pb rollIfBreakOrFlow_pres
+  pb removeSimpleKey_pres
+  fb allowSimpleKey_frames
+  apply PresS.bind (Frames.presS Frames.getMark); intro m
+  exact pushTok_pres _ _
+
+theorem fetchBlockEntryBody_pres (s : Sc) : PresS (fetchBlockEntryBody s) := by
+  unfold fetchBlockEntryBody
+  fb (anchorIndentCheck_frames s)
+  fb Frames.skipNonBlank
+  pb (rollIndent_none_pres _ _ _)
+  apply PresS.bind (Frames.presS (Frames.skipWsToEol _)); intro r
+  fb (Frames.lookahead _)
+  apply PresS.bind (Frames.presS (blockEntryTabCheck_frames r)); intro bad
+  apply PresS.ite
+  · apply PresS.bind (Frames.presS Frames.getMark); intro m
+    exact PresS.err _ _
+  · exact fetchBlockEntryTail_pres
+
+theorem fetchBlockEntry_pres : PresS fetchBlockEntry := by
+  unfold fetchBlockEntry
+  apply PresS.getS_bind; intro s
+  apply PresS.ite (PresS.err _ _)
+  apply PresS.ite (PresS.err _ _)
+  exact fetchBlockEntryBody_pres s
+
+-- key -----------------------------------------------------------------------------------------------
+
+theorem markExplicitKey_frames : Frames (modS markExplicitKey) := by
+  apply Frames.modS; intro s
+  unfold markExplicitKey
+  repeat' (first | exact ⟨rfl, rfl, rfl, rfl, rfl, rfl, ⟨[], (List.append_nil _).symm⟩⟩ | split)
+
+theorem keyPrologue_pres (s : Sc) : PresS (keyPrologue s) := by
+  unfold keyPrologue
+  apply PresS.ite
+  · exact PresS.ite (PresS.err _ _) (rollIndent_none_pres _ _ _)
+  · exact markExplicitKey_frames.presS
+
+theorem fetchKeyTail_pres (m0 : Marker) : PresS (fetchKeyTail m0) := by
+  unfold fetchKeyTail
+  fb Frames.skipNonBlank
+  fb Frames.skipYamlWhitespace
+  apply PresS.bind (Frames.presS Frames.peek); intro c
+  apply PresS.bind (Frames.presS Frames.getMark); intro m
+  exact PresS.ite (PresS.err _ _) (pushTok_pres _ _)
+
+theorem fetchKey_pres : PresS fetchKey := by
+  unfold fetchKey
+  apply PresS.getS_bind; intro s
+  pb (keyPrologue_pres s)
+  pb removeSimpleKey_pres
+  apply PresS.bind
+  · exact PresS.ite allowSimpleKey_frames.presS disallowSimpleKey_frames.presS
+  · intro _; exact fetchKeyTail_pres _
+
+-- value ---------------------------------------------------------------------------------------------
+
+theorem HeadKey.stable (sk : SimpleKey) : Stable (HeadKey sk) := by
+  intro s s' h f
+  exact ⟨InvS.stable s s' h.1 f, by rw [f.keys]; exact h.2⟩
+
+theorem valueTabCheck_frames : Frames valueTabCheck := by
+  unfold valueTabCheck; frames2
+
+theorem setInside_frames : Frames (modS fun s => { s with implStates := .inside :: s.implStates.tail }) :=
+  Frames.modS _ fun _ => ⟨rfl, rfl, rfl, rfl, rfl, rfl, ⟨[], (List.append_nil _).symm⟩⟩
+
+theorem fetchValue_pres : PresS fetchValue := by
+  unfold fetchValue
+  apply Tr.getS_bind; intro s0
+  split
+  · -- `simple_keys.last().unwrap()`: the key stack is never empty once the stream has started
+    rename_i hk
+    apply Tr.panicAt
+    rintro s ⟨hs, rfl⟩
+    exact hs.keys_ne hk
+  · rename_i sk rest hk
+    -- from here on the head key is `sk`
+    have hpre : ∀ s, (InvS s ∧ s = s0) → HeadKey sk s := by
+      rintro s ⟨hs, rfl⟩; exact ⟨hs, by simp [hk]⟩
+    apply Tr.conseq (P := HeadKey sk) ?_ hpre (fun _ _ h => h)
+    apply Tr.bind (R := fun _ => HeadKey sk)
+    · apply Tr.ite
+      · intro _; exact setInside_frames.tr (HeadKey.stable sk)
+      · intro _; exact Tr.pure _ (fun _ h => h)
+    · intro _
+      apply Tr.bind (Frames.skipNonBlank.tr (HeadKey.stable sk)); intro _
+      apply Tr.bind (valueTabCheck_frames.tr (HeadKey.stable sk)); intro tabErr
+      apply Tr.ite
+      · intro _
+        apply Tr.bind (Frames.getMark.tr (HeadKey.stable sk)); intro m
+        exact Tr.err _ _
+      · intro _
+        apply Tr.bind (R := fun _ => InvS)
+        · apply Tr.ite
+          · intro hp; exact valueAfterSimpleKey_pres sk hp _ _
+          · intro _; exact Tr.conseq (valueAfterComplexKey_pres _ _) (fun _ h => h.1) (fun _ _ h => h)
+        · intro _; exact pushTok_pres _ _
+
+theorem fetchFlowValue_pres : PresS fetchFlowValue := by
+  unfold fetchFlowValue
+  apply PresS.bind (Frames.presS (Frames.peekNth _)); intro nc
+  apply PresS.getS_bind; intro s
+  exact PresS.ite (PresS.err _ _) fetchValue_pres
+
+-- stream start / end ----------------------------------------------------------------------------------
+
+/-- the scanner state before the first token was fetched -/
+structure Init (s : Sc) : Prop where
+  started : s.streamStartProduced = false
+  keys : s.simpleKeys = []
+  flow : s.flowLevel = 0
+  indents : s.indents = []
+  toks : s.tokens = []
+
+/-- an input operation keeps every property that does not look at the input -/
+theorem liftI_tr {m : M In α} (h : NoStruct m) {P : Sc → Prop} (hP : ∀ s i, P s → P { s with inp := i }) :
+    Tr P (liftI m) (fun _ => P) := by
+  intro s hs
+  simp only [liftI]
+  cases hm : m s.inp with
+  | ok r => obtain ⟨a, i⟩ := r; exact hP s i hs
+  | err e => trivial
+  | panic p => exact h.out _ _ hm
+
+theorem fetchStreamStart_tr : Tr Init fetchStreamStart (fun _ => InvS) := by
+  intro s h
+  simp only [fetchStreamStart, Bind.bind, getMark, Sc.modS, pushTok]
+  refine ⟨⟨?_, ?_, ?_⟩, rfl⟩
+  · simp [h.indents, WFInd]
+  · intro _; simp [h.keys, h.flow]
+  · intro sk hsk hp
+    simp [h.keys] at hsk
+    subst hsk
+    simp at hp
+
+theorem clearPossibleKeys_inv (s : Sc) (h : InvS s) : InvS (clearPossibleKeys s) := by
+  refine ⟨⟨h.ind, ?_, ?_⟩, h.started⟩
+  · intro hs; simpa [clearPossibleKeys] using h.keys hs
+  · intro sk hsk hp
+    simp only [clearPossibleKeys, List.mem_map] at hsk
+    obtain ⟨sk0, _, rfl⟩ := hsk
+    simp at hp
+
+theorem forceNewLine_frames :
+    Frames (modS fun s => if s.mark.col != 0 then { s with mark := ⟨s.mark.index, s.mark.line + 1, 0⟩ } else s) := by
+  apply Frames.modS; intro s
+  split <;> exact ⟨rfl, rfl, rfl, rfl, rfl, rfl, ⟨[], (List.append_nil _).symm⟩⟩
+
+theorem fetchStreamEnd_pres : PresS fetchStreamEnd := by
+  unfold fetchStreamEnd
+  fb forceNewLine_frames
+  apply PresS.getS_bind; intro s
+  apply PresS.bind
+  · exact PresS.ite (PresS.err _ _) (PresS.pure _)
+  · intro _
+    apply PresS.bind (m := modS clearPossibleKeys)
+    · intro s hs; exact clearPossibleKeys_inv s hs
+    · intro _
+      pb (unrollIndent_pres _ (by omega))
+      pb removeSimpleKey_pres
+      fb disallowSimpleKey_frames
+      apply PresS.bind (Frames.presS Frames.getMark); intro m
+      exact pushTok_pres _ _
+
+-- the fetch loop --------------------------------------------------------------------------------------
+
+theorem fetchDocumentEndMarker_pres : PresS fetchDocumentEndMarker := by
+  unfold fetchDocumentEndMarker
+  pb (fetchDocumentIndicator_pres _)
+  fb (Frames.skipWsToEol _)
+  apply PresS.bind (Frames.presS (Frames.liftI _ (NoStruct.nextIs _ _))); intro ok
+  apply PresS.bind (Frames.presS Frames.getMark); intro m
+  exact PresS.ite (PresS.err _ _) (PresS.pure _)
+
+theorem fetchSpecial_pres : PresS fetchSpecial := by
+  unfold fetchSpecial
+  apply PresS.getS_bind; intro s
+  apply PresS.ite
+  · apply PresS.bind (Frames.presS (Frames.liftI _ (NoStruct.nextCharIs _))); intro b
+    apply PresS.ite
+    · pb fetchDirective_pres; exact PresS.pure _
+    · apply PresS.bind (Frames.presS (Frames.liftI _ NoStruct.docStart)); intro b2
+      apply PresS.ite
+      · pb (fetchDocumentIndicator_pres _); exact PresS.pure _
+      · apply PresS.bind (Frames.presS (Frames.liftI _ NoStruct.docEnd)); intro b3
+        exact PresS.ite fetchDocumentEndMarker_pres (PresS.pure _)
+  · exact PresS.pure _
+
+theorem fetchDispatch_pres : PresS fetchDispatch := by
+  unfold fetchDispatch
+  apply PresS.getS_bind; intro s
+  apply PresS.ite (PresS.err _ _)
+  apply PresS.bind (Frames.presS Frames.peek); intro c
+  apply PresS.bind (Frames.presS (Frames.peekNth _)); intro nc
+  apply PresS.ite (fetchFlowCollectionStart_pres _)
+  apply PresS.ite (fetchFlowCollectionStart_pres _)
+  apply PresS.ite (fetchFlowCollectionEnd_pres _)
+  apply PresS.ite (fetchFlowCollectionEnd_pres _)
+  apply PresS.ite fetchFlowEntry_pres
+  apply PresS.ite fetchBlockEntry_pres
+  apply PresS.ite fetchKey_pres
+  apply PresS.ite fetchValue_pres
+  apply PresS.ite fetchFlowValue_pres
+  apply PresS.ite (fetchAnchor_pres _)
+  apply PresS.ite (fetchAnchor_pres _)
+  apply PresS.ite fetchTag_pres
+  apply PresS.ite (fetchBlockScalar_pres _)
+  apply PresS.ite (fetchBlockScalar_pres _)
+  apply PresS.ite (fetchFlowScalar_pres _)
+  apply PresS.ite (fetchFlowScalar_pres _)
+  apply PresS.ite fetchPlainScalar_pres
+  apply PresS.ite fetchPlainScalar_pres
+  apply PresS.ite (PresS.err _ _)
+  exact fetchPlainScalar_pres
+
+theorem fetchAfterStart_pres : PresS fetchAfterStart := by
+  unfold fetchAfterStart
+  fb Frames.skipToNextToken
+  pb staleSimpleKeys_pres
+  apply PresS.bind (Frames.presS Frames.getMark); intro mark
+  pb (unrollIndent_pres _ (by omega))
+  fb (Frames.lookahead _)
+  apply PresS.bind (Frames.presS (Frames.liftI _ (NoStruct.nextIs _ _))); intro z
+  apply PresS.ite fetchStreamEnd_pres
+  apply PresS.bind fetchSpecial_pres; intro special
+  exact PresS.ite (PresS.pure _) fetchDispatch_pres
+
+/-- before or after the stream start -/
+def Pre (s : Sc) : Prop := InvS s ∨ Init s
+
+theorem Pre.inp (s : Sc) (i : In) (h : Pre s) : Pre { s with inp := i } := by
+  rcases h with h | h
+  · exact Or.inl ⟨⟨h.ind, h.keys, h.nums⟩, h.started⟩
+  · exact Or.inr ⟨h.started, h.keys, h.flow, h.indents, h.toks⟩
+
+/-- `fetch_next_token` establishes the structural invariant (first call) and preserves it (later calls) -/
+theorem fetchNextToken_tr : Tr Pre fetchNextToken (fun _ => InvS) := by
+  unfold fetchNextToken
+  apply Tr.bind (liftI_tr (NoStruct.lookahead 1) Pre.inp); intro _
+  apply Tr.getS_bind; intro s0
+  apply Tr.ite
+  · intro hns
+    apply Tr.conseq fetchStreamStart_tr ?_ (fun _ _ h => h)
+    rintro s ⟨hp, rfl⟩
+    rcases hp with h | h
+    · have := h.started; simp [this] at hns
+    · exact h
+  · intro hs
+    apply Tr.conseq fetchAfterStart_pres ?_ (fun _ _ h => h)
+    rintro s ⟨hp, rfl⟩
+    rcases hp with h | h
+    · exact h
+    · have := h.started; simp [this] at hs
+
+/-- no possible simple key refers to the token at the front of the queue -/
+def Front (s : Sc) : Prop := ∀ sk ∈ s.simpleKeys, sk.possible = true → sk.tokenNumber ≠ s.tokensParsed
+
+theorem staleSimpleKeys_toks :
+    Tr (fun s => InvS s ∧ s.tokens ≠ []) staleSimpleKeys (fun _ s => InvS s ∧ s.tokens ≠ []) := by
+  unfold staleSimpleKeys
+  apply Tr.getS_bind; intro s0
+  simp only
+  apply Tr.ite
+  · intro _; exact Tr.err _ _
+  · intro _
+    apply Tr.modS'
+    rintro s ⟨⟨hs, ht⟩, rfl⟩
+    refine ⟨⟨⟨hs.ind, ?_, ?_⟩, hs.started⟩, ht⟩
+    · intro _; simpa using hs.keysLen
+    · intro sk hsk hp
+      simp only [List.mem_map] at hsk
+      obtain ⟨sk0, hsk0, rfl⟩ := hsk
+      split at hp
+      · simp at hp
+      · rename_i hc
+        simp only [hc, if_false]
+        exact hs.nums sk0 hsk0 hp
+
+/-- `needMoreTokens` answers `false` only in a state where the front token can be delivered -/
+theorem needMoreTokens_tr :
+    Tr Pre needMoreTokens (fun needMore s => Pre s ∧ (needMore = false → InvS s ∧ Front s ∧ s.tokens ≠ [])) := by
+  unfold needMoreTokens
+  apply Tr.getS_bind; intro s0
+  apply Tr.ite
+  · intro _; exact Tr.pure _ (fun s h => ⟨h.1, by simp⟩)
+  · intro hne
+    apply Tr.bind (R := fun _ s => InvS s ∧ s.tokens ≠ [])
+    · apply Tr.conseq staleSimpleKeys_toks ?_ (fun _ _ h => h)
+      rintro s ⟨hp, rfl⟩
+      have ht : s.tokens ≠ [] := by
+        intro h; apply hne; simp [h]
+      rcases hp with h | h
+      · exact ⟨h, ht⟩
+      · -- tokens are queued, so the stream has started
+        exact absurd h.toks ht
+    · intro _
+      apply Tr.getS_bind; intro s1
+      apply Tr.pure
+      rintro s ⟨⟨hs, ht⟩, rfl⟩
+      refine ⟨Or.inl hs, fun hf => ⟨hs, ?_, ht⟩⟩
+      intro sk hsk hp heq
+      have : (s.simpleKeys.any fun sk => sk.possible && sk.tokenNumber == s.tokensParsed) = true := by
+        rw [List.any_eq_true]; exact ⟨sk, hsk, by simp [hp, heq]⟩
+      rw [this] at hf; exact Bool.noConfusion hf
+
+theorem fetchMoreTokens_tr (fuel : Nat) :
+    Tr Pre (fetchMoreTokens fuel) (fun _ s => InvS s ∧ Front s ∧ s.tokens ≠ [] ∧ s.tokenAvailable = true) := by
+  induction fuel with
+  | zero => unfold fetchMoreTokens; exact Tr.panicFuel
+  | succ n ih =>
+    unfold fetchMoreTokens
+    apply Tr.bind needMoreTokens_tr; intro needMore
+    apply Tr.ite
+    · intro _
+      apply Tr.bind (Tr.conseq fetchNextToken_tr (fun _ h => h.1) (fun _ _ h => h)); intro _
+      exact Tr.conseq ih (fun _ h => Or.inl h) (fun _ _ h => h)
+    · intro hn
+      apply Tr.modS'
+      intro s hs
+      have h2 := hs.2 (by simpa using hn)
+      exact ⟨⟨⟨h2.1.ind, h2.1.keys, h2.1.nums⟩, h2.1.started⟩, h2.2.1, h2.2.2, rfl⟩
+
+/-- delivering the front token keeps the invariant, because no possible key points at it -/
+theorem popToken_tr :
+    Tr (fun s => InvS s ∧ Front s ∧ s.tokens ≠ []) popToken (fun _ s => InvS s ∧ s.tokenAvailable = false) := by
+  unfold popToken
+  apply Tr.getS_bind; intro s0
+  split
+  · exact Tr.err _ _
+  · rename_i t ts ht
+    apply Tr.bind (R := fun _ s => InvS s ∧ s.tokenAvailable = false)
+    · apply Tr.modS'
+      rintro s ⟨⟨hs, hf, _⟩, rfl⟩
+      refine ⟨⟨⟨hs.ind, hs.keys, ?_⟩, hs.started⟩, rfl⟩
+      intro sk hsk hp
+      have h1 := hs.nums sk hsk hp
+      have h2 := hf sk hsk hp
+      simp only [ht, List.length_cons] at h1
+      show s.tokensParsed + 1 ≤ sk.tokenNumber ∧ sk.tokenNumber ≤ s.tokensParsed + 1 + ts.length
+      constructor <;> omega
+    · intro _; exact Tr.pure _ (fun _ h => h)
+
+/-- what holds between two calls of `Scanner::next` -/
+def Between (s : Sc) : Prop := Pre s ∧ s.tokenAvailable = false
+
+theorem nextToken_tr : Tr Between nextToken (fun _ => Between) := by
+  unfold nextToken
+  apply Tr.getS_bind; intro s0
+  apply Tr.ite
+  · intro _; exact Tr.pure _ (fun _ h => h.1)
+  · intro _
+    apply Tr.bind (R := fun _ s => InvS s ∧ Front s ∧ s.tokens ≠ [])
+    · apply Tr.ite
+      · intro _
+        exact Tr.conseq (fetchMoreTokens_tr _) (fun _ h => h.1.1) (fun _ _ h => ⟨h.1, h.2.1, h.2.2.1⟩)
+      · intro hta
+        intro s hs
+        obtain ⟨⟨_, hf⟩, rfl⟩ := hs
+        simp [hf] at hta
+    · intro _
+      exact Tr.conseq popToken_tr (fun _ h => h) (fun _ _ h => ⟨Or.inl h.1, h.2⟩)
+
+theorem mkSc_between (kind : InKind) (cap : Nat) (text : Str) : Between (mkSc kind cap text) :=
+  ⟨Or.inr ⟨rfl, rfl, rfl, rfl, rfl⟩, rfl⟩
+
+/-- **No structural panic.**  Whatever the input, the back-end and its capacity, the scanner never reaches
+`indents.pop().unwrap()`, `indents.last().unwrap()`, `simple_keys.last().unwrap()`, `simple_keys.pop().unwrap()`,
+the `assert!` of `insert_token` or the subtraction `token_number - tokens_parsed`. -/
+theorem scanAll_no_struct_panic (fuel : Nat) (s : Sc) (acc : List Token) (h : Between s) (p : Site)
+    (hp : (scanAll fuel s acc).2.1 = .panic p) : ¬ StructSite p := by
+  induction fuel generalizing s acc with
+  | zero => simp only [scanAll] at hp; cases hp; simp [StructSite]
+  | succ n ih =>
+    have h1 := nextToken_tr s h
+    simp only [scanAll] at hp
+    cases hn : nextToken s with
+    | ok r =>
+      obtain ⟨o, s'⟩ := r
+      simp only [hn] at h1 hp
+      cases o with
+      | some t => exact ih s' _ h1 hp
+      | none => simp at hp
+    | err e => simp [hn] at hp
+    | panic q =>
+      simp only [hn] at h1 hp
+      cases hp; exact h1
 
 end SaphyrModel.Sc
